@@ -299,13 +299,20 @@ func main() {
 	st := &stats{byClass: map[string]*classStat{}, stages: map[string]int{}, pairs: map[string]bool{}, viol: map[string]*vlib.Violation{}, violN: map[string]int{}}
 
 	// 1. base schemas: structurally valid for the harness, and accepted by the implementation.
-	bases := allBases()
-	for _, b := range bases {
+	var bases []*Schema
+	for _, b := range allBases() {
 		checkBaseStructure(b)
 		o := runSchema(b.Render(), true)
 		if !o.accepted() {
-			vlib.Fatal("base schema %q is not accepted (%s):\n%s", b.Name, o, b.Render())
+			// the implementation rejects a valid schema: over-rejection is not what C13 is about; the injections into this
+			// base cannot be judged (every one of them would be "rejected"), the other bases still are
+			run.Cap(fmt.Sprintf("base schema %q is valid but was not accepted (%s): its injections are skipped", b.Name, o))
+			continue
 		}
+		bases = append(bases, b)
+	}
+	if len(bases) == 0 {
+		vlib.Fatal("no base schema is accepted by the implementation")
 	}
 
 	// 2. injections at every applicable site of every base.
@@ -369,7 +376,7 @@ func main() {
 		if n > 5 {
 			st.ctrlFail = st.ctrlFail[:5]
 		}
-		vlib.Fatal("%d control schemas (valid twins of an injection) were rejected - the injection mechanics or a base are wrong, or the implementation rejects valid schemas:\n%s", n, strings.Join(st.ctrlFail, "\n---\n"))
+		run.Cap(fmt.Sprintf("%d control schemas (valid twins of an injection) were rejected - the implementation rejects valid schemas (not a C13 matter) or a base is wrong: %s", n, vlib.Short(strings.Join(st.ctrlFail, " --- "), 600)))
 	}
 
 	// 3. graphs: exact verdicts.
